@@ -90,10 +90,9 @@ Definition keeps (c : nat) (a b : opd A) (s : @St A) : bool :=
   || (Nat.eqb (rn (s c)) n && Nat.eqb (rorder (s c)) o)
   || (Nat.eqb (rorder (s c)) 0 && (rn (s c) <=? rn (rd s (if hits c a then b else a)))).
 
-(* Set: Order is assigned before Alloc (F-SETORD), so a receiver with the
-   operand's N but another Order is not reallocated *)
-Definition set_ok (c : nat) (b : opd A) (s : @St A) : bool :=
-  negb (Nat.eqb (rn (s c)) (rn (rd s b))) || Nat.eqb (rorder (s c)) (rorder (rd s b)).
+(* Set (HEAD d9fca78: Alloc before Order is assigned) needs no side condition: every receiver
+   satisfying [shape] is reallocated to the operand's N and Order when they differ.  The round-1
+   condition set_ok (equal N implies equal Order, F-SETORD) is retired. *)
 
 (* two operands (possibly in two different states) look the same to every getter *)
 Definition jet_eq (ra rb : Reg A) : Prop :=
